@@ -4,6 +4,7 @@
   Definitions only; the theorems are in Proofs/LayoutStage.lean and Proofs/LayoutFull.lean.
 -/
 import PasfmtModel.Model.PipelineFull
+import PasfmtModel.Model.Contracts
 
 namespace Pasfmt
 
@@ -123,5 +124,30 @@ def layoutPremisesB (cfg : Config) (alnum : Bytes → Bool) (s1 s2 : Bytes) : Bo
         | none => false
         | some (_, sols) => allWritten pw.2.1 (writtenBefore pw.2.1 pw.2.2) pw.2.2.length sols)
   | _, _ => false
+
+/-! ### canonical counters after the wrapper stage (C08) -/
+
+/-- what applying a solution establishes: at most two line breaks, and no indentation without a line break -/
+def canonWB (f : FmtData) : Bool := decide (f.nl ≤ 2) && (f.nl != 0 || (f.ind == 0 && f.cont == 0))
+
+/-- the state before the wrapper stage is fit for the canonical-counters theorem: every token that is not kept
+    verbatim has at most one space before it, and the tokens whose counters are final already (the end-of-file token
+    written by the end-of-file rule) have canonical ones -/
+def preStageOkB (lines : List Line) (ft : FT) : Bool :=
+  ft.zipIdx.all fun p => p.1.fmt.ignored || (decide (p.1.fmt.sp ≤ 1) && (!(writtenBefore lines ft p.2) || canonWB p.1.fmt))
+
+/-- all premises of the canonical-counters theorem for the closed model hold on input `s` -/
+def canonPremisesB (cfg : Config) (alnum : Bytes → Bool) (s : Bytes) : Bool :=
+  match lex s with
+  | none => false
+  | some raw =>
+    match parseAndConsolidate raw with
+    | none => false
+    | some po =>
+      let pw := preWrap (preO alnum po) raw
+      preStageOkB pw.2.1 pw.2.2 &&
+      (match wrapStageFull cfg pw.2.1 pw.2.2 with
+        | none => false
+        | some (_, sols) => allWritten pw.2.1 (writtenBefore pw.2.1 pw.2.2) pw.2.2.length sols)
 
 end Pasfmt
